@@ -393,6 +393,27 @@ func runC19(c *core.Ctx) {
 			outs = append(outs, n2)
 		}
 		compareEntries(c, "router-identity-ctors-vs-reader", in, sh, outs)
+		// a NULL certificate handed to the four-argument constructor: it may refuse (it is documented
+		// for KEY certificates) - but when it returns an identity, that identity is the one the reader
+		// yields for the same parts
+		if _, _, isKey, _ := m.Cert.KeyTypes(); !isKey && rr.ok {
+			n3 := mk("router_identity.NewRouterIdentity(parts, NULL certificate)", func() ([]byte, error) {
+				k, _, err := keys_and_cert.ReadKeysAndCert(in)
+				if err != nil {
+					return nil, err
+				}
+				d, err := router_identity.NewRouterIdentity(k.ReceivingPublic, k.SigningPublic, k.Certificate(), k.Padding)
+				if err != nil {
+					return nil, err
+				}
+				return d.Bytes()
+			})
+			if n3.ok {
+				compareEntries(c, "router-identity-ctor-with-null-certificate-vs-reader", in, sh, []entryOut{rr, n3})
+			} else {
+				c.Bucket("null-certificate-refused-by-constructor")
+			}
+		}
 		// the destination wrapper of a router identity against the destination reader, on inputs both
 		// readers accept (RedDSA is a destination type only): the same structure, the same bytes,
 		// hash and address
